@@ -116,6 +116,20 @@ theorem rollover_invisible_string (ops : List (Op Char)) (hv : validS File.empty
   have b := string_refines_StringIO ms₂ ch₂ h₂ ops hv
   exact ⟨by rw [a.1, b.1], by rw [a.2.1, b.2.1], by rw [a.2.2, b.2.2]⟩
 
+/-- iterating to the end (`[x for x in f]`, `list(f)`) yields exactly the lines `readlines()` returns and ends at the same
+    position (before the repair the two cut differently on VT, FF, FS, GS, RS, NEL, LS, PS) -/
+theorem string_iteration_is_readlines (ms ch : Nat) (hch : 0 < ch) (ops : List (Op Char))
+    (hv : validS File.empty ops = true) :
+    ((SStr.init ms ch).run (ops ++ [.drain])).1 = ((SStr.init ms ch).run (ops ++ [.readlines])).1 ∧
+    ((SStr.init ms ch).run (ops ++ [.list])).1 = ((SStr.init ms ch).run (ops ++ [.readlines])).1 ∧
+    ((SStr.init ms ch).run (ops ++ [.drain])).2.tell = ((SStr.init ms ch).run (ops ++ [.readlines])).2.tell := by
+  have hd := string_refines_StringIO ms ch hch (ops ++ [.drain]) (by rw [validS_append]; simp [hv, validS, okS])
+  have hl := string_refines_StringIO ms ch hch (ops ++ [.list]) (by rw [validS_append]; simp [hv, validS, okS])
+  have hr := string_refines_StringIO ms ch hch (ops ++ [.readlines]) (by rw [validS_append]; simp [hv, validS, okS])
+  rw [hd.1, hl.1, hr.1, hd.2.1, hr.2.1]
+  simp only [Spec.run_append, Spec.run, Spec.step, textSem]
+  exact ⟨trivial, trivial, trivial⟩
+
 /-! ### the other reading of "io.StringIO": the default constructor -/
 
 /-- against the DEFAULT `io.StringIO()` (`newline='\n'`: a line ends at LF only): SpooledStringIO returns the same for
@@ -328,6 +342,8 @@ def demoT : List (Op Char) :=
    .readlines, .getvalue]
 example : validS File.empty demoT = true := by decide +kernel
 example : ((SStr.init 4 2).run demoT).1 = (Spec.run textSem File.empty demoT).1 := by decide +kernel
+example : ((SStr.init 4 2).run (demoT.take 2 ++ [.drain])).1 = ((SStr.init 4 2).run (demoT.take 2 ++ [.readlines])).1 := by
+  decide +kernel
 example : ((SStr.init 4 2).run (demoT.take 3)).1.getLast? = some (.data ['a', Char.ofNat 0x0c, 'b', '\n']) := by
   decide +kernel
 
